@@ -67,6 +67,70 @@ class Finder(importlib.abc.MetaPathFinder, importlib.abc.Loader):
         ast.fix_missing_locations(tree)
         module.__dict__["__builtins__"] = shims.SHIM_BUILTINS
         exec(compile(tree, path, "exec"), module.__dict__)
+        _snapshot_module(module)
+
+
+# ---- per-path reset of module- and class-level mutable state of the library -------------------------------------------------
+# Every explored path stands for a run in a fresh process.  The shimmed modules are loaded once per worker, so a container the
+# library keeps at module or class level (TxFetcher.cache, a tag-hash memo, or a memo table added by a change under test) would
+# carry entries - with symbolic values of *another* path - from one path into the next.  The containers that exist right after a
+# module body ran are snapshotted, and their contents are restored in place at the start of every path (core.PATH_START_HOOKS).
+_BASE = []      # (container, snapshot of its contents)
+_BASE_IDS = set()
+
+
+def _copy1(obj):
+    if type(obj) is dict:
+        return {k: (_copy1(v) if type(v) in (dict, set, list) else v) for k, v in obj.items()}
+    if type(obj) is list:
+        return [(_copy1(v) if type(v) in (dict, set, list) else v) for v in obj]
+    return set(obj)
+
+
+def _snap(obj):
+    if type(obj) in (dict, set, list) and id(obj) not in _BASE_IDS:
+        _BASE_IDS.add(id(obj))
+        _BASE.append((obj, _copy1(obj)))
+
+
+def _snapshot_module(module):
+    for k, v in list(module.__dict__.items()):
+        if k.startswith("__"):
+            continue
+        _snap(v)
+        if isinstance(v, type) and getattr(v, "__module__", None) == module.__name__:
+            for kk, vv in list(vars(v).items()):
+                if not kk.startswith("__"):
+                    _snap(vv)
+
+
+def rebaseline():
+    """a harness that deliberately edits such a container once per process calls this afterwards"""
+    for i, (obj, _) in enumerate(_BASE):
+        _BASE[i] = (obj, _copy1(obj))
+
+
+def reset_state():
+    for obj, base in _BASE:
+        if type(obj) is dict:
+            if len(obj) != len(base) or any(obj.get(k, _BASE) is not v and type(v) not in (dict, set, list) for k, v in base.items()):
+                obj.clear()
+                obj.update(_copy1(base))
+        elif type(obj) is list:
+            if len(obj) != len(base) or any(a is not b and type(b) not in (dict, set, list) for a, b in zip(obj, base)):
+                obj[:] = _copy1(base)
+        else:
+            if len(obj) != len(base):
+                obj.clear()
+                obj.update(base)
+            else:
+                try:
+                    same = all(x in obj for x in base)
+                except Exception:
+                    same = False
+                if not same:
+                    obj.clear()
+                    obj.update(base)
 
 
 _installed = False
@@ -79,6 +143,9 @@ def install():
         if REPO not in sys.path:
             sys.path.insert(0, REPO)
         _installed = True
+        from . import core
+        if reset_state not in core.PATH_START_HOOKS:
+            core.PATH_START_HOOKS.append(reset_state)
 
 
 def load(modname):
